@@ -11,6 +11,11 @@ Besides, the property is stated directly on python's observations (no model invo
 `$match` = find(filter), `$sort` = find().sort(), `$skip/$limit` = slices, `$count` =
 count_documents, inclusion/exclusion `$project` = the find projection, and the prefix law
 aggregate(p ++ q) = aggregate(q) over a collection holding aggregate(p)'s output.
+
+The witnesses of the findings that were repaired in the library (known_findings.json, status
+"fixed") are run on every check as ordinary cases (`fixed_cases`): judged like any generated case
+and, besides, python must answer exactly what MongoDB defines (the witness's `expected`) — the old
+behaviour coming back is a VIOLATION.
 """
 import collections
 import copy
@@ -217,7 +222,7 @@ def direct_oracles(ctx, case, db, stats):
     """agreement of the first stage with the separately coded find path (python only)"""
     op, opts = first_stage(case)
     docs = case['docs']
-    if op is None or not docs:
+    if op is None or (not docs and op != '$count'):
         return
     coll = db.c
     got = None
@@ -249,7 +254,9 @@ def direct_oracles(ctx, case, db, stats):
             and '.' not in opts:
         name = 'count=count_documents'
         got = agg(coll, [{'$count': opts}])
-        want = [{opts: coll.count_documents({})}]
+        # one document holding the number count_documents gives; none over no documents
+        n_docs = coll.count_documents({})
+        want = [{opts: n_docs}] if n_docs else []
     elif op == '$project' and plain_flags(opts) and not (
             opts.get('_id', 0) and any(not v for k, v in opts.items() if k != '_id')):
         # ({field: 0, _id: 1} is the listed finding `projectidexcl`)
@@ -564,6 +571,32 @@ def run_cases(ctx, cases, judge, rng, stats, oracles=True):
     return kept
 
 
+def fixed_cases():
+    """(finding, case) for the findings repaired in the library: their witnesses stay regression
+    cases"""
+    out = []
+    for e in common.load_known('C03'):
+        if e.get('status') == 'fixed' and 'wire_pipeline' in e.get('witness', {}):
+            out.append((e, case_of_wire(e['witness'])))
+    return out
+
+
+def run_fixed(ctx, judge, rng, stats):
+    """the witnesses of the repaired findings through the ordinary judgement; and python must
+    answer what MongoDB defines there"""
+    fixed = fixed_cases()
+    kept = run_cases(ctx, [c for _, c in fixed], judge, rng, stats)
+    for e, c in fixed:
+        if not any(c is k for k in kept):
+            raise RuntimeError('the witness of the repaired finding %s cannot be encoded' % e['id'])
+        if norm(c['py']) != e['witness']['expected']:
+            ctx.violation(render(c, kind='the repaired finding %s is back: %s'
+                                 % (e['id'], e.get('what', '')), py=c['py'],
+                                 expected=e['witness']['expected'], impl=c.get('impl'),
+                                 spec=c.get('spec')), rank=1)
+    return len(fixed)
+
+
 def corpus_cases():
     import glob
     import os
@@ -582,6 +615,7 @@ def run(ctx, proof, driver_ok):
     stats = collections.Counter()
     corpus = corpus_cases()
     run_cases(ctx, corpus, judge, rng, stats)
+    n_fixed = run_fixed(ctx, judge, rng, stats)
     stage_hist = collections.Counter()
     length_hist = collections.Counter()
     nontrivial = set()
@@ -623,6 +657,7 @@ def run(ctx, proof, driver_ok):
         'samples': samples,
         'cases': total,
         'corpus_cases': len(corpus),
+        'repaired_finding_witnesses_run': n_fixed,
         'zones': dict(judge.zone),
         'exclusion_reasons_hit': dict(judge.reasons),
         'deviations_by_reason': dict(judge.findings),
